@@ -23,6 +23,33 @@ from .invariants import check_accessors, check_roundtrip, check_message
 from .world import SimFS, SimS3, InjectedOSError
 
 logging.disable(logging.CRITICAL)
+
+
+class _LogSink(logging.Handler):
+    """the host's log handler: formats every record and keeps nothing (and keeps logging.basicConfig from adding
+    a stderr handler of its own)"""
+
+    def emit(self, record):
+        record.getMessage()
+
+
+if not any(isinstance(h, _LogSink) for h in logging.getLogger().handlers):
+    logging.getLogger().addHandler(_LogSink())
+
+
+def set_logging(mode):
+    root = logging.getLogger()
+    for name in [None] + [n for n in logging.root.manager.loggerDict if n == 'mosromgr' or n.startswith('mosromgr.')]:
+        lg = logging.getLogger(name)
+        lg.setLevel(logging.NOTSET if name else logging.WARNING)
+    if mode == 'debug':
+        logging.disable(logging.NOTSET)
+        root.setLevel(logging.DEBUG)
+    elif mode == 'error':
+        logging.disable(logging.NOTSET)
+        root.setLevel(logging.ERROR)
+    else:
+        logging.disable(logging.CRITICAL)
 HOST_FILTER = 'mosromgr-verif: a host application filter that never matches'
 
 import mosromgr.mostypes as MT            # noqa: E402
@@ -349,6 +376,9 @@ class Run:
         self.sT_last = str(self.T) if self.twin else None
         self.restarts_since = 0
         self.state_checks(op)
+        if not inj and not step.get('corrupt') and self.cfg.get('checks', {}).get('accessors', True):
+            # the same accessors against the document as the NCS sent it (what the parser made of it is not the measure)
+            check_accessors(self.P, self.adder(op), doc=canon(O.document(op)))
         self.event(self.step_i, 'create', digest(canon_et(self.P.xml)))
 
     def state_checks(self, op):
@@ -613,6 +643,7 @@ class Run:
         self.fatal = None
         self.count_configured()
         fresh_modules()
+        set_logging(self.cfg.get('logging', 'off'))
         self.fs.install()
         self.s3.install()
         self._wctx = warnings.catch_warnings(record=True)
@@ -657,6 +688,7 @@ class Run:
                     if str(obj) != snap:
                         self.add('C13.msg-mutated', 'message object merged at step %d changed afterwards' % st, op, {'mode': 'end-of-run'})
         finally:
+            set_logging('off')
             self._wctx.__exit__(None, None, None)
             self.s3.uninstall()
             self.fs.destroy()
